@@ -2,7 +2,7 @@
    Print Assumptions.  Costs are integers (dyadic floats scaled by 2^30; 2^-26 is 16). *)
 From Coq Require Import ZArith List Bool.
 From Centro Require Import Base.Sx Model.Lapjv Spec.Lapjv Proofs.LapjvCert Proofs.LapjvRefute Proofs.LapjvTrack
-  Proofs.LapjvPhases Proofs.LapjvAbstract Proofs.LapjvGrid Proofs.LapjvArr Proofs.LapjvRows Proofs.LapjvTrackCost Proofs.LapjvRt Proofs.LapjvHall Proofs.LapjvBsearch Proofs.LapjvTrackLink Proofs.LapjvArrExt Proofs.LapjvExtModel Proofs.LapjvAugMarks Proofs.LapjvAugFlip Proofs.LapjvAugPred Proofs.LapjvAugRows Proofs.LapjvPerm Proofs.LapjvFixedPerm Proofs.LapjvAugFuel Proofs.LapjvAugPrice Proofs.LapjvAugStamps Proofs.LapjvAugOpt Proofs.LapjvAugDist Proofs.LapjvAugDistHyp Proofs.LapjvAugPriceExt Proofs.LapjvReserved.
+  Proofs.LapjvPhases Proofs.LapjvAbstract Proofs.LapjvGrid Proofs.LapjvArr Proofs.LapjvRows Proofs.LapjvTrackCost Proofs.LapjvRt Proofs.LapjvHall Proofs.LapjvBsearch Proofs.LapjvTrackLink Proofs.LapjvArrExt Proofs.LapjvExtModel Proofs.LapjvAugMarks Proofs.LapjvAugFlip Proofs.LapjvAugPred Proofs.LapjvAugRows Proofs.LapjvPerm Proofs.LapjvFixedPerm Proofs.LapjvAugFuel Proofs.LapjvAugPrice Proofs.LapjvAugStamps Proofs.LapjvAugOpt Proofs.LapjvAugDist Proofs.LapjvAugDistHyp Proofs.LapjvAugPriceExt Proofs.LapjvReserved Proofs.LapjvRefPerm.
 Import ListNotations.
 Open Scope Z_scope.
 
@@ -507,6 +507,33 @@ Theorem C01_lapjv_fixed_eps0_not_total :
   exists n tri k, wf n tri /\ has_PM n tri /\ lapjv Fixed 0 0 k n tri = None.
 Proof. exact lapjv_fixed_eps0_not_total. Qed.
 Print Assumptions C01_lapjv_fixed_eps0_not_total.
+
+(* F20 (round 10): augment's sentinel `inf = np.sum(c) + 1` (:296) is NOT larger than every reduced cost.  Kernel-evaluated
+   witness inside the property's quantifier (n = 4, unique perfect matching through three pairs of cost 14, 0 passes of
+   augmenting row reduction): the faithful model's rebuild of scan is empty (None - the real code reads p_scan[low] past `up`
+   and segfaults), while the same model with a true infinity (lapjv_ref) returns the optimum.  So "adequacy of inf" /
+   the unconditional aug_scan_nonempty for the sentinel model could not be proved because it is false; memory safety of
+   augment fails inside the quantifier. *)
+Theorem C01_inf_sentinel_refuted :
+  exists n tri k, wf n tri /\ has_PM n tri /\
+    lapjv AsIs eps26 eps26 k n tri = None /\
+    (exists out, lapjv_ref AsIs eps26 eps26 k n tri = Some out /\ Optimal n tri (x_of out)).
+Proof. exact inf_sentinel_refuted. Qed.
+Print Assumptions C01_inf_sentinel_refuted.
+
+(* the reference variant (true infinity in augment) with the row offset repaired and the tie band off: whenever it returns,
+   x is a perfect matching over listed pairs and x, y are mutually inverse permutations (same proof as C01_lapjv_fixed_pm:
+   none of the structural proofs looks at the value of inf).  NOT yet re-established for lapjv_ref: the distance invariant /
+   optimality (Proofs.LapjvAugDist is written for a finite inf) and "always returns". *)
+Theorem C01_lapjv_ref_fixed_pm : forall n tri,
+  (forall t, In t tri -> (t_i t < n)%nat /\ (t_j t < n)%nat) ->
+  NoDup (map fst tri) ->
+  (forall j, (j < n)%nat -> exists t, In t tri /\ t_j t = j) ->
+  has_PM n tri ->
+  forall epsr k x y u v, 0 <= epsr ->
+  lapjv_ref Fixed 0 epsr k n tri = Some (x, y, u, v) -> PM n tri x /\ Inverse n x y.
+Proof. exact lapjv_ref_fixed_pm. Qed.
+Print Assumptions C01_lapjv_ref_fixed_pm.
 
 (* completeness of phases 1-3 (every row is pending or assigned) ... *)
 Theorem C01_phase1_comp : forall n tri,
